@@ -309,7 +309,8 @@ inline Out ref_apply(RModel& m, const VOp& op, Info& inf) {
 
 // ---------------------------------------------------------------------- the alphabet enabled in a state
 struct Alpha {
-    int profile = 0;   // 0 = full alphabet, 1 = reduced alphabet, 2 = medium: full view alphabet, reduced mutation operands
+    int profile = 0;   // 0 = full alphabet, 1 = reduced alphabet, 2 = medium: full view alphabet, reduced mutation operands,
+                       // 3 = traversal: every NodeIterator / TreeWalker configuration and move, every removeChild, four re-insertions (deep, narrow)
     int maxViews = 1;
     bool attrOpsAlways = false;
     int maxCreated = 1;
@@ -345,11 +346,29 @@ inline bool keep_reduced(const RModel& m, const VOp& o) {
     }
 }
 
+// traversal alphabet: reaching "the last movement was previousNode() and the reference node is the tail of the iteration" takes
+// creation + n x nextNode + previousNode + removal, which the depth-3/4 spaces cannot reach
+inline bool keep_traversal(const RModel& m, const VOp& o) {
+    auto in = [](int x, std::initializer_list<int> l) { for (int y : l) if (x == y) return true; return false; };
+    switch (o.c) {
+    case K_MK_NI: case K_MK_TW: return true;
+    case K_REMOVE: return true;
+    case K_APPEND: return in(o.b, {6, 2, 5}) && in(o.a, {1, 5});
+    case K_NEXT: case K_PREV: return true;
+    case K_TW_PARENT: case K_TW_FIRST: case K_TW_LAST: case K_TW_NEXTSIB: case K_TW_PREVSIB: case K_TW_NEXT: case K_TW_PREV: return true;
+    default: return false;
+    }
+}
+
 inline std::vector<VOp> enabled_ops_full(const RModel& m, const Alpha& A);
 inline std::vector<VOp> enabled_ops(const RModel& m, const Alpha& A) {
     std::vector<VOp> all = enabled_ops_full(m, A);
     if (A.profile == 0) return all;
     std::vector<VOp> r;
+    if (A.profile == 3) {
+        for (auto& o : all) if (keep_traversal(m, o)) r.push_back(o);
+        return r;
+    }
     for (auto& o : all) {
         bool mutation = o.c >= K_APPEND && o.c <= K_MKTEXT;
         if (A.profile == 2 && !mutation) { r.push_back(o); continue; }   // "medium": only the mutation operands are reduced
